@@ -174,7 +174,7 @@ fn gen_table_case(rng: &mut Rng, p: &Params, out: &mut Vec<String>) {
         } else {
             // rollback; mostly inside the window of the newest block ever given to the table
             let floor = max_ever.saturating_sub(W);
-            let n = if rng.chance(85) { floor + rng.below(max_ever - floor + 1) } else { rng.below(max_ever + 2) };
+            let n = if rng.chance(85) { floor + rng.below(max_ever - floor + 1) } else { rng.below(max_ever + 1) };
             out.push(format!("reorg {}", n));
             out.push("dump".into());
             if n < floor {
@@ -455,7 +455,7 @@ fn exec_op(s: &mut State, ws: &[&str], out: &mut Out) -> String {
             let n = num(n);
             let tab = s.t.as_mut().unwrap();
             let floor = s.r.max_ever.saturating_sub(W);
-            let inside = n >= floor;
+            let inside = n >= floor && n <= s.r.max_ever;
             // keys whose only record is the value column, or whose history was re-seeded from it at block 0
             let reseeded: BTreeSet<String> = {
                 let (db, cdb, cache) = tab.verif_dump();
